@@ -1171,3 +1171,29 @@ Definition pcase_guard (c : pcase) : bool :=
 (* the final state of the case is fully parameterised by the predicate *)
 Definition pcase_entries (entry : string -> bool) (c : pcase) : bool :=
   match pcase_expected c with Some e => forallb entry e | None => false end.
+
+(* ---- the residue constructors (Amino / Nucleic / WAT __init__) -----------------
+   for each input record in file order: the name is first replaced by its canonical
+   spelling (reference.altnames), THEN tested against the atoms already taken; a record
+   whose canonical name is already present is ignored (alternate locations, repeated
+   records, alias + canonical spelling of the same atom) *)
+Definition canon (alt : list (string * string)) (n : string) : string :=
+  match alt_of n alt with Some c => c | None => n end.
+
+Definition init_step (alt : list (string * string)) (acc : nl) (n : string) : nl :=
+  let c := canon alt n in if mem c acc then acc else (acc ++ [c])%list.
+
+Definition residue_init (alt : list (string * string)) (recs : nl) : nl := fold_left (init_step alt) recs [].
+
+(* the same on the object-list + dict layer *)
+Definition res_init_step (alt : list (string * string)) (s : res) (n : string) : res :=
+  let c := canon alt n in if res_has c s then s else res_create c s.
+
+Definition res_init (alt : list (string * string)) (recs : nl) : res := fold_left (res_init_step alt) recs res_empty.
+
+(* first occurrences, in order *)
+Fixpoint first_occ (seen l : nl) : nl :=
+  match l with
+  | [] => []
+  | x :: r => if mem x seen then first_occ seen r else x :: first_occ (seen ++ [x])%list r
+  end.
